@@ -63,6 +63,13 @@ theorem func_index_space_defined (m : MModule) (fn : Nat) (h : m.imports.length 
   show (m.imports ++ m.funcs.map (·.type))[fn]? = _
   rw [List.getElem?_append_right h, List.getElem?_map]
 
+/-- every import ENTRY owns a function index — also an entry that repeats the (module, field) of an earlier one (`imports` is the list of
+    entries, in order; the same host function may be imported several times): the index space has one index per entry and per
+    definition, so no later index shifts.  (Tied to the real reader by emit-tokens / e2e on tools/corpus/C04/import-same-function-twice*.json.) -/
+theorem func_index_space_size (m : MModule) : m.ctx.funcTypeIdx.length = m.imports.length + m.funcs.length := by
+  show (m.imports ++ m.funcs.map (·.type)).length = _
+  simp
+
 /-! ### non-vacuity: a module with an import, mutual recursion and an indirect call -/
 
 /-- types: 0 = (i32)→i32; one mutable i32 global.  func 0 = import (returns its argument, bumps global 0);
